@@ -63,6 +63,7 @@ func (s *State) execCallWithArgs(c *ssa.CallCommon, instr ssa.Value, args []Val,
 		binds = s.valueOf(mc).Binds
 	}
 	if callee != nil {
+		s.checkAtCalls(callee, args, where)
 		key := s.eng.fnKey(callee)
 		if spec, ok := s.eng.specs[key]; ok {
 			return s.callContract(spec, callee, c, args, binds, where)
@@ -550,3 +551,27 @@ func (s *State) execInvoke(c *ssa.CallCommon, args []Val, where string) Val {
 }
 
 func libInvokePure(c *ssa.CallCommon) bool { return true }
+
+// checkAtCalls asserts the enclosing function's call-site clauses for this callee ($argN = the call's arguments).
+func (s *State) checkAtCalls(callee *ssa.Function, args []Val, where string) {
+	if s.spec == nil {
+		return
+	}
+	for _, ac := range s.spec.AtCalls {
+		if ac.Callee != callee.Name() {
+			continue
+		}
+		ac.Used = true
+		env := s.specEnv()
+		for i, a := range args {
+			env.vars[fmt.Sprintf("$arg%d", i)] = a
+		}
+		cl := ac.Clause
+		err := safeSpec(func() {
+			s.oblige("atcall", ac.Callee+"/"+cl.Name, cl.Props, env.evalBool(cl.Expr), where, cl.Src)
+		})
+		if err != nil {
+			s.coll.specErr(s.eng, s.fn, cl, err)
+		}
+	}
+}
